@@ -7,8 +7,10 @@ CONSTANTS
   GraphN = 5
   LemmaN = 4
   LemmaL = 2
+  LoopN = 4
 INVARIANT InvSeg
 INVARIANT InvIdx
 INVARIANT InvGraph
 INVARIANT InvLemma
+INVARIANT InvLoop
 CHECK_DEADLOCK FALSE
